@@ -351,22 +351,30 @@ func parsedStart(which int) (*keyset.Handle, []mEntry) {
 	return hd, me
 }
 
+// Expectation classes. The property fixes SOME outcomes (the primary cannot be disabled or deleted, a
+// non-enabled key cannot become primary, ...); where it leaves the policy open (which random id is picked,
+// whether the id of a deleted key may be reused, whether a DESTROYED key can be re-enabled) both outcomes are
+// accepted and the model simply follows the implementation's answer.
+const (
+	either = iota
+	mustFail
+	mustSucceed
+)
+
 // apply performs operation o on implementation and model. judge: evaluate oracles for this transition.
 // Returns false if the operation is not applicable in this state (pruned).
 func (s *sys) apply(o op, step int, judge bool, budget int) bool {
 	mo := s.mo
 	var before string
-	var beforeEntries []implEntry
 	if judge && o.kind != opStart {
 		before = fmt.Sprint(s.implEntriesSummary())
-		beforeEntries = s.implEntries()
 	}
-	_ = beforeEntries
 	var gotID uint32
 	var gotErr error
-	wantErr := false
-	var wantID uint32
+	expect := either
 	newLabel := step
+	isAdd := false
+	var effect func() // model effect of a successful operation
 	switch o.kind {
 	case opStart:
 		mo.unavail = map[uint32]bool{}
@@ -391,18 +399,20 @@ func (s *sys) apply(o op, step int, judge bool, budget int) bool {
 		if valid != 0 && mo.adds >= budget {
 			return false
 		}
-		if valid == 0 {
-			wantErr = true
+		if valid == 2 {
+			expect = mustSucceed
 		} else {
+			expect = mustFail
+		}
+		if valid != 0 {
 			mo.adds++
-			script, id := mo.draw(o.answers)
+			script, _ := mo.draw(o.answers) // mirror of the current id-reservation policy, only used to script the tape
 			s.script(script)
-			if valid == 1 {
-				wantErr = true
-			} else {
-				wantID = id
-				mo.entries = append(mo.entries, mEntry{label: newLabel, id: id, status: stEnabled, idReq: !raw})
-			}
+		}
+		isAdd = true
+		effect = func() {
+			mo.unavail[gotID] = true
+			mo.entries = append(mo.entries, mEntry{label: newLabel, id: gotID, status: stEnabled, idReq: !raw})
 		}
 		if o.kind == opAddTemplate {
 			gotID, gotErr = s.km.Add(templates[o.tmpl])
@@ -410,39 +420,58 @@ func (s *sys) apply(o op, step int, judge bool, budget int) bool {
 			gotID, gotErr = s.km.AddNewKeyFromParameters([]key.Parameters{gcmTink, gcmRaw}[o.tmpl])
 		}
 	case opAddKey:
+		isAdd = true
 		switch o.tmpl {
 		case -1:
-			wantErr = true
+			expect = mustFail
 			gotID, gotErr = s.km.AddKey(nil)
 		case 0:
 			if mo.adds >= budget {
 				return false
 			}
 			mo.adds++
-			script, id := mo.draw(o.answers)
+			script, _ := mo.draw(o.answers)
 			s.script(script)
-			wantID = id
-			mo.entries = append(mo.entries, mEntry{label: newLabel, id: id, status: stEnabled, idReq: false, key: rawKey})
+			expect = mustSucceed
+			effect = func() {
+				mo.unavail[gotID] = true
+				mo.entries = append(mo.entries, mEntry{label: newLabel, id: gotID, status: stEnabled, idReq: false, key: rawKey})
+			}
 			gotID, gotErr = s.km.AddKey(rawKey)
 		case 1:
-			if mo.unavail[o.id] {
-				wantErr = true
-			} else {
+			switch {
+			case mo.find(o.id) >= 0:
+				expect = mustFail // would create a duplicate id
+			case mo.unavail[o.id]:
+				expect = either // id of a deleted key / burnt id: reuse policy is not part of the property
 				if mo.adds >= budget {
 					return false
 				}
 				mo.adds++
-				mo.unavail[o.id] = true
-				wantID = o.id
-				mo.entries = append(mo.entries, mEntry{label: newLabel, id: o.id, status: stEnabled, idReq: true, key: tinkKeys[o.id]})
+			default:
+				if mo.adds >= budget {
+					return false
+				}
+				mo.adds++
+				expect = mustSucceed
+			}
+			effect = func() {
+				mo.unavail[gotID] = true
+				mo.entries = append(mo.entries, mEntry{label: newLabel, id: gotID, status: stEnabled, idReq: true, key: tinkKeys[o.id]})
 			}
 			gotID, gotErr = s.km.AddKey(tinkKeys[o.id])
+			if gotErr == nil && gotID != o.id && judge {
+				s.viol("id-requirement", "%s: key requiring id %#x was added under id %#x", o.name, o.id, gotID)
+			}
 		}
 	case opSetPrimary:
 		i := mo.find(o.id)
 		if i < 0 || mo.entries[i].status != stEnabled {
-			wantErr = true
+			expect = mustFail
 		} else {
+			expect = mustSucceed
+		}
+		effect = func() {
 			for j := range mo.entries {
 				mo.entries[j].primary = j == i
 			}
@@ -450,27 +479,36 @@ func (s *sys) apply(o op, step int, judge bool, budget int) bool {
 		gotErr = s.km.SetPrimary(o.id)
 	case opEnable:
 		i := mo.find(o.id)
-		if i < 0 || mo.entries[i].status == stDestroyed {
-			wantErr = true
-		} else {
-			mo.entries[i].status = stEnabled
+		switch {
+		case i < 0:
+			expect = mustFail
+		case mo.entries[i].status == stDestroyed:
+			expect = either
+		default:
+			expect = mustSucceed
 		}
+		effect = func() { mo.entries[i].status = stEnabled }
 		gotErr = s.km.Enable(o.id)
 	case opDisable:
 		i := mo.find(o.id)
-		if i < 0 || mo.entries[i].primary || mo.entries[i].status == stDestroyed {
-			wantErr = true
-		} else {
-			mo.entries[i].status = stDisabled
+		switch {
+		case i < 0 || mo.entries[i].primary:
+			expect = mustFail
+		case mo.entries[i].status == stDestroyed:
+			expect = either
+		default:
+			expect = mustSucceed
 		}
+		effect = func() { mo.entries[i].status = stDisabled }
 		gotErr = s.km.Disable(o.id)
 	case opDelete:
 		i := mo.find(o.id)
 		if i < 0 || mo.entries[i].primary {
-			wantErr = true
+			expect = mustFail
 		} else {
-			mo.entries = append(mo.entries[:i:i], mo.entries[i+1:]...)
+			expect = mustSucceed
 		}
+		effect = func() { mo.entries = append(mo.entries[:i:i], mo.entries[i+1:]...) }
 		gotErr = s.km.Delete(o.id)
 	case opFromHandle:
 		hd, err := s.km.Handle()
@@ -493,6 +531,17 @@ func (s *sys) apply(o op, step int, judge bool, budget int) bool {
 		}
 	}
 	s.trace = append(s.trace, fmt.Sprintf("%s -> id=%#x err=%v", o.name, gotID, gotErr))
+	if isAdd && gotErr == nil && effect != nil && judge {
+		if mo.find(gotID) >= 0 {
+			s.viol("duplicate-id", "%s: returned id %#x which is already the id of a key in the keyset", o.name, gotID)
+		}
+	}
+	if gotErr == nil && effect != nil {
+		func() {
+			defer func() { recover() }() // an index the model does not have (possible only after a flagged must-fail success)
+			effect()
+		}()
+	}
 
 	// learn generated key objects from the implementation (newest entry), for identity tracking
 	ie := s.implEntries()
@@ -504,11 +553,11 @@ func (s *sys) apply(o op, step int, judge bool, budget int) bool {
 		return true
 	}
 
-	// (1) conformance of the operation's result
-	if (gotErr != nil) != wantErr {
-		s.viol("op-result", "%s: error=%v, model expects error=%v", o.name, gotErr, wantErr)
-	} else if !wantErr && o.kind != opStart && (o.kind == opAddTemplate || o.kind == opAddParams || o.kind == opAddKey) && gotID != wantID {
-		s.viol("op-id", "%s: returned id %#x, model expects %#x", o.name, gotID, wantID)
+	// (1) outcomes fixed by the property (or by plain functional correctness of a valid call)
+	if expect == mustFail && gotErr == nil {
+		s.viol("op-must-fail", "%s succeeded; the property / model requires an error here", o.name)
+	} else if expect == mustSucceed && gotErr != nil {
+		s.viol("op-must-succeed", "%s failed on valid arguments: %v", o.name, gotErr)
 	}
 	// (2) an operation that returns an error leaves the keyset unchanged
 	if gotErr != nil && o.kind != opStart {
@@ -687,7 +736,7 @@ func bfsSection(x *h.X) {
 			return len(startOps)
 		}
 		return len(normalOps)
-	}, Deadline: h.Deadline(), Progress: func(d, s, t, f int) {
+	}, Deadline: h.Deadline(), MaxStates: 2000000, Stop: func() bool { return h.ViolationCount() >= 25 }, Progress: func(d, s, t, f int) {
 		if os.Getenv("VERIF_PROGRESS") != "" {
 			fmt.Fprintf(os.Stderr, "  depth=%d states=%d transitions=%d frontier=%d\n", d, s, t, f)
 		}
